@@ -17,7 +17,7 @@ SHARDS = {'quick': 16, 'thorough': 32}
 TIMEOUT = {'quick': 900, 'thorough': 3600}
 MUST_HIT = ['Cell.where_eq-identifier-twin', 'Cell.two-classes', 'Cell.read-all-spellings', 'Cell.serialize', 'Cell.where_eq',
             'Referential.write-rejected', 'Referential.ctor-keyword', 'Referential.loaded-instance', 'ClassName.spellings',
-            'Cell.referred-identifier-written', 'ClassName.whole-model-after-spellings']
+            'Cell.referred-identifier-written', 'ClassName.whole-model-after-spellings', 'Cell.where_eq-after-delete']
 MUST_REACH = ['xtuml/meta.py:Class.__getattr__', 'xtuml/meta.py:Class.__setattr__',
               'xtuml/meta.py:Class.__delattr__', 'xtuml/meta.py:MetaModel.find_metaclass',
               'xtuml/meta.py:MetaClass.new', 'xtuml/meta.py:WhereEqual.__call__',
@@ -482,6 +482,21 @@ def random_history(ctx, rng, route, length):
                     if insts[j] not in sel:
                         raise Mismatch('filter/does-not-match-stored-value',
                                        'history %r: where_eq(%s=%r) misses #%d' % (log[-6:], sp, want, j))
+                elif any(c[a] is DELETED for c in cells):
+                    # an instance lacks the attribute: whatever an equality filter on it does (the library lets
+                    # the AttributeError of the read escape), it does the same under every spelling of the name
+                    ctx.hit('Cell.where_eq-after-delete')
+                    outcomes = {}
+                    for value in (want if want is not DELETED else None, None):
+                        for s2 in sps[a]:
+                            try:
+                                res = tuple(insts.index(x) for x in m.select_many('Thng', xtuml.where_eq(**{s2: value})))
+                            except AttributeError:
+                                res = 'AttributeError'
+                            outcomes.setdefault((repr(value), repr(res)), []).append(s2)
+                        if len([k for k in outcomes if k[0] == repr(value)]) > 1:
+                            raise Mismatch('filter/spellings-disagree-after-delete',
+                                           'history %r: where_eq(<%s>=%r) gives %r' % (log[-6:], a, value, outcomes))
             if getattr(insts[j], 'kEEP', DELETED) != cells[j]['Keep']:
                 raise Mismatch('read/other-attribute-disturbed', 'history %r: #%d.Keep reads %r'
                                % (log[-6:], j, getattr(insts[j], 'Keep', None)))
